@@ -687,53 +687,73 @@ func runScenario(e *env, id int, c *Case) (obs *Obs, herr error) {
 	}
 
 	// collector process
-	port, err := freePort()
-	if err != nil {
-		return nil, err
-	}
-	addr := fmt.Sprintf("127.0.0.1:%d", port)
-	logf, err := os.Create(filepath.Join(dir, "collector.log"))
-	if err != nil {
-		return nil, err
-	}
-	defer logf.Close()
-	cmd := exec.Command(e.collectorBin, "-logtostderr", "-config_file", cfgFile, "-cert_file", e.tf.cert,
-		"-key_file", e.tf.key, "-port", strconv.Itoa(port), "-dial_timeout", "5s")
-	cmd.Dir = dir
-	cmd.Stdout = logf
-	cmd.Stderr = logf
-	cmd.SysProcAttr = &syscall.SysProcAttr{Pdeathsig: syscall.SIGKILL}
-	if err := cmd.Start(); err != nil {
-		return nil, fmt.Errorf("cannot start collector: %v", err)
-	}
-	exited := make(chan struct{})
-	go func() { cmd.Wait(); close(exited) }()
-	defer func() {
-		cmd.Process.Kill()
-		select {
-		case <-exited:
-		case <-time.After(3 * time.Second):
+	// The port is chosen by listening on :0 and closing; if somebody else grabs it
+	// before the collector listens ("failed to listen"), another one is tried.
+	var (
+		addr   string
+		cmd    *exec.Cmd
+		exited chan struct{}
+		up     bool
+	)
+	for attempt := 0; attempt < 3 && !up; attempt++ {
+		port, err := freePort()
+		if err != nil {
+			return nil, err
 		}
-	}()
-
-	// wait for the port (or for the process to give up)
-	up := false
-	deadline := time.Now().Add(8 * time.Second)
-	for time.Now().Before(deadline) && !up {
-		select {
-		case <-exited:
-			deadline = time.Now()
-			continue
-		default:
+		addr = fmt.Sprintf("127.0.0.1:%d", port)
+		logName := filepath.Join(dir, fmt.Sprintf("collector_%d.log", attempt))
+		logf, err := os.Create(logName)
+		if err != nil {
+			return nil, err
 		}
-		conn, err := net.DialTimeout("tcp", addr, 200*time.Millisecond)
-		if err == nil {
-			conn.Close()
-			up = true
+		defer logf.Close()
+		cmd = exec.Command(e.collectorBin, "-logtostderr", "-config_file", cfgFile, "-cert_file", e.tf.cert,
+			"-key_file", e.tf.key, "-port", strconv.Itoa(port), "-dial_timeout", "5s")
+		cmd.Dir = dir
+		cmd.Stdout = logf
+		cmd.Stderr = logf
+		cmd.SysProcAttr = &syscall.SysProcAttr{Pdeathsig: syscall.SIGKILL}
+		if err := cmd.Start(); err != nil {
+			return nil, fmt.Errorf("cannot start collector: %v", err)
+		}
+		ex := make(chan struct{})
+		exited = ex
+		c0 := cmd
+		go func() { c0.Wait(); close(ex) }()
+		defer func() {
+			c0.Process.Kill()
+			select {
+			case <-ex:
+			case <-time.After(3 * time.Second):
+			}
+		}()
+		// wait for the port (or for the process to give up)
+		gone := false
+		deadline := time.Now().Add(8 * time.Second)
+		for time.Now().Before(deadline) && !up && !gone {
+			select {
+			case <-ex:
+				gone = true
+				continue
+			default:
+			}
+			conn, err := net.DialTimeout("tcp", addr, 200*time.Millisecond)
+			if err == nil {
+				conn.Close()
+				up = true
+				break
+			}
+			time.Sleep(40 * time.Millisecond)
+		}
+		if up || !gone {
 			break
 		}
-		time.Sleep(40 * time.Millisecond)
+		b, _ := os.ReadFile(logName)
+		if !strings.Contains(string(b), "failed to listen") {
+			break // the collector refused its configuration: an observation
+		}
 	}
+	_ = exited
 
 	collect := func() {
 		for _, nm := range names {
